@@ -3,9 +3,11 @@
 Require Extraction.
 Require Import ExtrOcamlBasic.
 From MMD.lib Require Import Bytes.
-From MMD.lib Require Import Lemon.
+From MMD.lib Require Import Lemon Utf8 XmlDfa.
 From MMD.gen Require Import ParserTables.
-From MMD.model Require Import DStringModel DStringSpec PoolModel TreeCheck.
+From MMD.gen Require Import Escapers CharTable.
+From MMD.model Require Import DStringModel DStringSpec PoolModel TreeCheck LabelModel.
+From MMD.proofs Require Import EscaperProofs.
 Extraction Language OCaml.
 Extraction "mmdmodel.ml"
   Bytes.find_sub
@@ -13,4 +15,7 @@ Extraction "mmdmodel.ml"
   DStringSpec.sp_step DStringSpec.op_ok
   PoolModel.pinit PoolModel.pstep PoolModel.well_bracketed
   Lemon.parse_document ParserTables.parser_tables ParserTables.line_kinds
-  TreeCheck.wf_tree.
+  TreeCheck.wf_tree
+  LabelModel.label_from_string LabelModel.clean_string CharTable.is_whitespace_or_line_ending
+  EscaperProofs.esc Escapers.esc_html Escapers.esc_html_br Escapers.esc_latex Escapers.esc_odf Escapers.esc_odf_br Escapers.esc_opml Escapers.esc_itmz
+  Utf8.valid_utf8 XmlDfa.xml_safe.
